@@ -2115,7 +2115,7 @@ coap_read_session(coap_context_t *ctx, coap_session_t *session, coap_tick_t now)
                                                                 packet->length);
     if (bytes_read < 0) {
       coap_session_disconnected_lkd(session, COAP_NACK_NOT_DELIVERABLE);
-    } else if (bytes_read > 2) {
+    } else if (bytes_read > 0) {
       coap_pdu_t *pdu;
 
       session->last_rx_tx = now;
